@@ -16,10 +16,22 @@ Definition ocurve_eqb (a b : ocurve) : bool :=
 (* the library computes difference quotients in float64: values are compared within 1e-9 (relative) *)
 Definition tolr : Q := 1 # 1000000000.
 Definition close (x y : Q) : bool := Qleb (Qabs (x - y)) (tolr * (1 + Qabs y)).
-Definition close_pt (a b : pt) : bool := Nat.eqb (length a) (length b) && forallb (fun xy => close (fst xy) (snd xy)) (combine a b).
-Definition ocurve_close (a b : ocurve) : bool :=
+(* float64 cancellation: the library forms coeff * P_(i+1) - coeff * P_i in floats, so its absolute error grows with the SIZE of the
+   control points (not of their differences): 1e-13 * max |P| * max coefficient p / (u_(i+p+1) - u_(i+1)) is allowed on top
+   (about 1e-11 for ordinary data; it matters only for curves far from the origin whose extent is tiny) *)
+Definition maxabs (l : list Q) : Q := fold_left (fun m x => if Qltb m (Qabs x) then Qabs x else m) l 0.
+Definition amplification (c : ocurve) : Q :=
+  let U := o_U c in let p := o_p c in
+  fold_left (fun m i => let g := nth (i + p + 1) U 0 - nth (i + 1) U 0 in
+                        if Qltb 0 g then (let a := inject_Z (Z.of_nat p) / g in if Qltb m a then a else m) else m)
+            (seq 0 (length (o_P c) - 1)) 1.
+Definition cancel_slack (c : ocurve) : Q := (1 # 10000000000000) * maxabs (concat (o_P c)) * amplification c.
+Definition close_s (s x y : Q) : bool := Qleb (Qabs (x - y)) (tolr * (1 + Qabs y) + s).
+Definition close_pt_s (s : Q) (a b : pt) : bool :=
+  Nat.eqb (length a) (length b) && forallb (fun xy => close_s s (fst xy) (snd xy)) (combine a b).
+Definition ocurve_close (s : Q) (a b : ocurve) : bool :=
   ql_eqb (o_U a) (o_U b) && Nat.eqb (o_p a) (o_p b) && Nat.eqb (length (o_P a)) (length (o_P b))
-  && forallb (fun pq => close_pt (fst pq) (snd pq)) (combine (o_P a) (o_P b))
+  && forallb (fun pq => close_pt_s s (fst pq) (snd pq)) (combine (o_P a) (o_P b))
   && match o_W a, o_W b with None, None => true | _, _ => false end.
 
 (* (curve C, Derivate(C), C afterwards) *)
@@ -43,7 +55,7 @@ Definition integral_identity (c d : ocurve) : bool :=
           let cx := o_eval c x in
           forallb (fun kk =>
             let q := qsum_red (map2 (fun wk t => Qred (wk * nth kk (o_eval d (Qred (a + h * t))) 0)) w x01) in
-            close (h * q) (nth kk cx 0 - nth kk ca 0)) (seq 0 (o_dim c)))
+            close_s (cancel_slack c * (hi - lo)) (h * q) (nth kk cx 0 - nth kk ca 0)) (seq 0 (o_dim c)))
           (seq 1 (m + 1))) (pairs ks)
   | _, _ => false
   end.
@@ -89,7 +101,7 @@ Definition check_case (cs : case) : verdict :=
   match o_W c, to_curve c with
   | None, Ok cv =>
       mkv (match c_derivate cv, r with
-           | Ok dm, Ok d => ocurve_close (of_curve dm) d
+           | Ok dm, Ok d => ocurve_close (cancel_slack c) (of_curve dm) d
            | Err e, Err e' => exn_eqb e e'
            | _, _ => false
            end) prop
